@@ -12,7 +12,10 @@ resolves the optimum; the property's relations are checked at ML_RTOL relative (
 log-likelihood of the two answers must agree within ML_LTOL."""
 import json
 import math
+import os
 import random
+import subprocess
+import sys
 import warnings
 
 import numpy as np
@@ -44,12 +47,13 @@ def _woe():
     return woe
 
 
-def make_df(rows):
+def make_df(rows, labels=None):
+    """the data frame handed to the real code; `labels` = row labels (None: a fresh RangeIndex)"""
     return pd.DataFrame({"load": [float(r[0]) for r in rows], "cycles": [float(r[1]) for r in rows],
-                         "fracture": [bool(r[2]) for r in rows]})
+                         "fracture": [bool(r[2]) for r in rows]}, index=labels)
 
 
-def analyze(name, rows):
+def analyze(name, rows, labels=None):
     """run one analyzer of the real code; returns dict of floats or {'error': kind}"""
     woe = _woe()
     A = getattr(woe, name)
@@ -57,10 +61,34 @@ def analyze(name, rows):
         warnings.simplefilter("ignore")
         with np.errstate(all="ignore"):
             try:
-                r = A(make_df(rows)).analyze()
+                r = A(make_df(rows, labels)).analyze()
             except ValueError as e:
                 return {"error": "ValueError: " + str(e)[:60]}
+            except Exception as e:      # any other exception of the code under test is an answer, not an infrastructure error
+                return {"error": type(e).__name__ + ": " + str(e)[:60]}
     return {k: float(r[k]) for k in KEYS}
+
+
+_FRESH_SCRIPT = """
+import json, sys, warnings
+sys.path.insert(0, sys.argv[1]); sys.path.insert(0, sys.argv[2])
+from harness.c18 import analyze
+job = json.load(sys.stdin)
+print("RESULT " + json.dumps({n: analyze(n, job["rows"]) for n in job["names"]}))
+"""
+
+
+def analyze_fresh(names, rows):
+    """the analyzers' results for `rows` as the FIRST analyses of a fresh interpreter (same pylife source tree)"""
+    import pylife
+    src = os.path.dirname(os.path.dirname(os.path.abspath(pylife.__file__)))
+    verif = os.path.dirname(os.path.dirname(os.path.abspath(__file__)))
+    p = subprocess.run([sys.executable, "-W", "ignore", "-c", _FRESH_SCRIPT, verif, src],
+                       input=json.dumps({"rows": rows, "names": names}), capture_output=True, text=True, timeout=900)
+    for line in p.stdout.splitlines():
+        if line.startswith("RESULT "):
+            return json.loads(line[7:])
+    raise RuntimeError("fresh-interpreter reference failed: " + (p.stderr or p.stdout)[-400:])
 
 
 def same(a, b, rtol):
@@ -91,6 +119,8 @@ def admissible(rows):
     x = np.log10([r[0] for r in ff])
     y = np.log10([r[1] for r in ff])
     a, b = np.polyfit(x, y, 1)
+    if not a < -1.0:
+        return False      # k_1 <= 1: not Woehler data (see ASSUMPTIONS): TS = TN^(1/k_1) < 1 or astronomic, the ML start is outside the model's domain
     return float(np.max(np.abs(y - (a * x + b)))) > 1e-6
 
 
@@ -101,11 +131,19 @@ def exact_admissible(rows):
 
 
 def ml_admissible(rows):
-    """MaxLikeInf: two mixed levels and three fractures on two levels in the infinite zone"""
+    """MaxLikeInf: two mixed levels and three fractures on two levels in the infinite zone (else the code raises), and
+    the share of fractures per load level of the infinite zone does not fall with the load and rises somewhere: otherwise
+    the probit-type likelihood has no interior maximum and the optimiser runs away (see ASSUMPTIONS)"""
     _m, _fin, inf = zone_info(rows)
     fl = {r[0] for r in inf if r[2]}
     rl = {r[0] for r in inf if not r[2]}
-    return len(fl & rl) >= 2 and sum(1 for r in inf if r[2]) >= 3 and len(fl) >= 2
+    if not (len(fl & rl) >= 2 and sum(1 for r in inf if r[2]) >= 3 and len(fl) >= 2):
+        return False
+    share = []
+    for L in sorted({r[0] for r in inf}):
+        g = [r for r in inf if r[0] == L]
+        share.append(sum(1 for r in g if r[2]) / len(g))
+    return all(b >= a for a, b in zip(share, share[1:])) and share[-1] > share[0]
 
 
 # ------------------------------------------------------------------ generators
@@ -150,17 +188,75 @@ def gen_rows(rng, ml=False):
     raise RuntimeError("generator could not produce an admissible data set")
 
 
+def gen_labels(rng, rows):
+    """row labels: they carry no information about the tests.  `concat` = two series put together with pd.concat
+    without ignore_index (each part numbered from 0: labels repeat ACROSS the zones)"""
+    n = len(rows)
+    scheme = rng.choice(["concat", "concat", "concat", "shuffled", "strings", "level", "const", "concat_str", "halves"])
+    m, _fin, _inf = zone_info(rows)
+    if scheme in ("concat", "concat_str"):
+        cnt, labels = [0, 0], []
+        for r in rows:
+            part = 0 if (m is None or r[0] > m) else 1
+            labels.append(cnt[part])
+            cnt[part] += 1
+        if scheme == "concat_str":
+            labels = [f"s{v}" for v in labels]
+    elif scheme == "halves":
+        labels = [i % ((n + 1) // 2) for i in range(n)]
+    elif scheme == "shuffled":
+        labels = list(range(n))
+        rng.shuffle(labels)
+    elif scheme == "strings":
+        labels = [f"test-{i:03d}" for i in range(n)]
+        rng.shuffle(labels)
+    elif scheme == "level":
+        labels = [f"L{r[0]:.6g}" for r in rows]
+    else:
+        labels = [0] * n
+    return labels
+
+
 def gen_data(rng):
     rows, p = gen_rows(rng)
     q = {k: v * rng.uniform(0.8, 1.25) for k, v in p.items()}
     q["TN"], q["TS"] = max(q["TN"], 1.05), max(q["TS"], 1.02)
-    return {"kind": "data", "rows": rows, "points": [p, q], "perm_seed": rng.randrange(10 ** 6)}
+    return {"kind": "data", "rows": rows, "points": [p, q], "perm_seed": rng.randrange(10 ** 6),
+            "labels": gen_labels(rng, rows)}
 
 
 def gen_ml(rng, name):
     rows, p = gen_rows(rng, ml=True)
     return {"kind": "ml", "analyzer": name, "rows": rows, "points": [p], "perm_seed": rng.randrange(10 ** 6),
-            "factor": rng.choice(FACTORS)}
+            "factor": rng.choice(FACTORS), "labels": gen_labels(rng, rows)}
+
+
+def gen_one_mixed(rng):
+    """a data set with run-outs but ONE mixed load level (and one pure run-out level below): MaxLikeFull then fixes TS to
+    the pearl-chain value ('less than two mixed load levels')"""
+    k = rng.uniform(4, 9)
+    SD = rng.choice([logu(rng, 50, 600), 300.0])
+    ND = logu(rng, 5e5, 2e6)
+    sN = C_STD * math.log10(rng.uniform(1.05, 2.0))
+    limit = 1e7
+    rows = []
+    for f in rng.sample([1.2, 1.35, 1.5, 1.65, 1.8], rng.choice([3, 4])):
+        for _ in range(rng.choice([3, 4, 5])):
+            rows.append([SD * f, ND * f ** (-k) * 10 ** rng.gauss(0, sN), True])
+    n_mixed = rng.choice([4, 5, 6])
+    n_frac = rng.randint(1, n_mixed - 1)
+    for i in range(n_mixed):
+        rows.append([SD, ND * 10 ** rng.gauss(0, sN), True] if i < n_frac else [SD, limit, False])
+    for _ in range(rng.choice([2, 3, 4])):
+        rows.append([SD * 0.85, limit, False])
+    rng.shuffle(rows)
+    return rows
+
+
+def gen_history(rng):
+    """a session: `first` is analysed, then `rows`; the results for `rows` must be those of a fresh interpreter"""
+    rows, p = gen_rows(rng, ml=True)
+    return {"kind": "history", "first": gen_one_mixed(rng), "rows": rows}
 
 
 def gen_exact(rng):
@@ -224,7 +320,11 @@ class C18(Prop):
             "relative, zones exact).  Oracle (real code only): analyzer(transformed data) vs transformed analyzer(data) for load "
             "factors 3, 7, 1000, cycle factors 3, 7, 1000 and a row permutation; each test in exactly one zone on the correct side of "
             "the reported transition; slope / scatter on exact Basquin data; likelihood(result) >= likelihood(start).  "
-            "Non-trivial = every case (distinct cases counted)")
+            "Row labels of the frames handed to the code: fresh RangeIndex, shuffled, strings, and "
+            "labels repeating across / within the zones (pd.concat of two series without ignore_index); zone membership is "
+            "identified by position and counted.  history = a session (data set with ONE mixed level analysed first, then an "
+            "ML-admissible data set by all four analyzers) compared with the same analyses as the first ones of a fresh "
+            "interpreter (subprocess).  Non-trivial = every case (distinct cases counted)")
     ASSUMPTIONS = [
         "C18: theorems are over the reals; scipy.stats.linregress is modelled by the OLS closed form, norm.ppf / norm.cdf by "
         "arbitrary functions Q / Phi (the equivariance proofs need nothing about them); np.sort by insertion sort; groupby('load') "
@@ -232,11 +332,22 @@ class C18(Prop):
         "C18: admissible data set = at least two fractured load levels with a spread of cycles in the FINITE zone and at least three finite-zone fractures that are not collinear in log-log (two points are always an exact Basquin line: kind `exact`) (otherwise the "
         "analyzers warn and return NaN, or raise - loud), positive loads and cycles, the automatic finite/infinite transition "
         "(set_finite_infinite_transition / conservative_finite_infinite_transition are opt-in and not covered)",
+        "C18: admissible additionally means that the finite-zone regression is a Woehler line with k_1 > 1 (a falling S-N curve). Few "
+        "finite-zone tests with large scatter can give k_1 <= 0; the code then returns TS = TN^(1/k_1) < 1 silently and the ML "
+        "analyzers start outside the model's parameter domain and run away (observed on the repaired tree: SD = 2e5, ND = 1e-19, "
+        "TS = 3e-26, row-order dependent at 7e-3) - no estimate exists there, nothing is claimed",
+        "C18: ML-admissible additionally means that the share of fractures per load level of the infinite zone does not fall with "
+        "the load: for staircase data with an inverted level the likelihood in (SD, TS) has no interior maximum and fmin runs "
+        "away (observed on the repaired tree: TS = 2e8 / 1.6e29, SD = 4.9e5, ND = 0) - no estimate exists there, nothing is claimed",
         "C18: under load scaling ND is compared only when the reported SD is not 0: with no run-outs the code reports SD = 0 and "
         "evaluates ND at the fixed load 0.1 (a FIXME in the source), which the property's sentence on load scaling does not mention",
         "C18: scipy.optimize.fmin (Nelder-Mead) is external: assumed never to return a point worse than its start; its absolute "
         "stopping tolerances limit the equivariance of the ML analyzers to about 1e-4 relative (documented in the module docstring)",
         "C18: bayesian.py (pymc) is not part of the property",
+        "C18 (formalisation choice): 'the estimate for a data set' is a function of the tests (load, cycles, fracture) alone - "
+        "not of the row labels of the DataFrame (checked: repeating / shuffled / string labels vs a fresh RangeIndex) and not of "
+        "what the process analysed before (checked: history cases, reference = first analysis of a fresh interpreter). The "
+        "property quantifies over data sets, not over sessions; without this reading its relations between two runs are meaningless",
     ]
 
     def __init__(self):
@@ -249,7 +360,9 @@ class C18(Prop):
     # -------------------------------------------------------------- generation
     def generate(self, rng, tier):
         big = tier != "quick"
-        n_data, n_exact, n_inf, n_full = (60, 60, 6, 1) if not big else (500, 400, 50, 8)
+        n_data, n_exact, n_inf, n_full, n_hist = (32, 30, 5, 1, 1) if not big else (500, 400, 50, 8, 12)
+        for _ in range(n_hist):       # first: later cases of the run cannot have prepared the interpreter state for them
+            yield gen_history(rng)
         for _ in range(n_data):
             yield gen_data(rng)
         for _ in range(n_exact):
@@ -263,6 +376,8 @@ class C18(Prop):
     def model_lines(self, case):
         w = wire(case["rows"])
         k = case["kind"]
+        if k == "history":
+            return []
         if k == "exact":
             return [f"c18.elem {w}"]
         lines = [f"c18.zones {w}", f"c18.drop {w}"]
@@ -278,18 +393,24 @@ class C18(Prop):
         self._count("cases_" + k)
         rows = case["rows"]
 
+        labels = case.get("labels")
+
         def curve(name):
-            r = analyze(name, rows)
+            r = analyze(name, rows, labels)
             return r["error"] if "error" in r else " ".join(f2h(r[key]) for key in KEYS)
+        if k == "history":
+            return []
         if k == "exact":
             return [curve("Elementary")]
+        self._count("labels_" + ("range" if labels is None else "unique" if len(set(labels)) == len(labels) else "repeating"))
         with warnings.catch_warnings():
             warnings.simplefilter("ignore")
-            df = make_df(rows)
+            df = make_df(rows, labels)
+            df["pos"] = range(len(df))          # the position identifies a test whatever its row label is
             fd = df.fatigue_data
             tr = float(fd.finite_infinite_transition)
-            fi, ii = set(fd.finite_zone.index), set(fd.infinite_zone.index)
-            flags = ["B" if (i in fi and i in ii) else "F" if i in fi else "I" if i in ii else "N" for i in df.index]
+            fi, ii = list(fd.finite_zone.pos), list(fd.infinite_zone.pos)
+            flags = ["B" if (i in fi and i in ii) else "F" if i in fi else "I" if i in ii else "N" for i in range(len(df))]
             self._count("zone_tests_finite", len(fi))
             self._count("zone_tests_infinite", len(ii))
             self._count("datasets_without_runouts" if fd.num_runouts == 0 else "datasets_with_runouts")
@@ -337,6 +458,8 @@ class C18(Prop):
     # -------------------------------------------------------------- oracle
     def oracle(self, case):
         k = case["kind"]
+        if k == "history":
+            return self._oracle_history(case)
         if k == "data":
             return self._oracle_zones(case) or self._oracle_equivariance(case, ["Elementary", "Probit"], CF_RTOL, FACTORS)
         if k == "ml":
@@ -347,19 +470,25 @@ class C18(Prop):
         return None
 
     def _oracle_zones(self, case):
+        rows, labels = case["rows"], case.get("labels")
+        _woe()                                  # registers the `fatigue_data` accessor
         with warnings.catch_warnings():
             warnings.simplefilter("ignore")
-            df = make_df(case["rows"])
+            df = make_df(rows, labels)
+            df["pos"] = range(len(df))          # the position identifies a test whatever its row label is
             fd = df.fatigue_data
             tr = float(fd.finite_infinite_transition)
-            fi, ii = list(fd.finite_zone.index), list(fd.infinite_zone.index)
-        for i in df.index:
+            fi, ii = [int(v) for v in fd.finite_zone.pos], [int(v) for v in fd.infinite_zone.pos]
+        if len(fi) + len(ii) != len(rows):
+            return (f"the zones hold {len(fi)} + {len(ii)} of the {len(rows)} tests (transition {tr!r}; row labels "
+                    f"{'repeat' if labels is not None and len(set(labels)) < len(labels) else 'are unique'})", "zones-partition")
+        for i, r in enumerate(rows):
             n = fi.count(i) + ii.count(i)
             if n != 1:
-                return (f"test {i} (load {df.load[i]!r}, fracture {bool(df.fracture[i])}) is in {n} zones "
+                return (f"test {i} (load {r[0]!r}, fracture {bool(r[2])}, label {labels[i] if labels else i!r}) is in {n} zones "
                         f"(transition {tr!r})", "zones-partition")
-            L = float(df.load[i])
-            if i in fi and not (L > tr and bool(df.fracture[i])):
+            L = float(r[0])
+            if i in fi and not (L > tr and bool(r[2])):
                 return (f"finite-zone test {i}: load {L!r} not above the reported transition {tr!r} or not a fracture", "zones-partition")
             if i in ii and fi and not L < tr:
                 return (f"infinite-zone test {i}: load {L!r} not below the reported transition {tr!r}", "zones-partition")
@@ -369,12 +498,16 @@ class C18(Prop):
         rows = case["rows"]
         for name in names:
             base = analyze(name, rows)
-            variants = [("rows permuted", permuted(rows, case["perm_seed"]), {})]
+            variants = [("rows permuted", permuted(rows, case["perm_seed"]), {}, None)]
+            if case.get("labels") is not None:
+                lab = case["labels"]
+                variants.append((f"same rows with {'repeating' if len(set(lab)) < len(lab) else 'other unique'} row labels "
+                                 f"(e.g. {lab[:4]!r}) instead of a fresh RangeIndex", rows, {}, lab))
             for c in factors:
-                variants.append((f"loads x {c:g}", scaled(rows, cl=c), {"SD": c}))
-                variants.append((f"cycles x {c:g}", scaled(rows, cn=c), {"ND": c}))
-            for what, vrows, fac in variants:
-                got = analyze(name, vrows)
+                variants.append((f"loads x {c:g}", scaled(rows, cl=c), {"SD": c}, None))
+                variants.append((f"cycles x {c:g}", scaled(rows, cn=c), {"ND": c}, None))
+            for what, vrows, fac, vlabels in variants:
+                got = analyze(name, vrows, vlabels)
                 self._count("analyzer_runs_" + name)
                 if ("error" in base) != ("error" in got):
                     return (f"{name}: {what}: {got.get('error', 'a result')} but the original data give "
@@ -391,6 +524,29 @@ class C18(Prop):
                                 f"relative deviation {abs(got[key] - want) / abs(want) if want else float('inf'):.3g}",
                                 "equivariance-" + name)
         return None
+
+    def _oracle_history(self, case):
+        """the estimate for a data set is a function of the data set: analysing `first` before it changes nothing"""
+        names = ["Elementary", "Probit", "MaxLikeInf", "MaxLikeFull"]
+        ref = analyze_fresh(names, case["rows"])                  # fresh interpreter: B alone
+        for name in ("Elementary", "Probit", "MaxLikeFull"):      # A (one mixed level: MaxLikeInf rejects it)
+            analyze(name, case["first"])
+        self._count("history_sessions")
+        for name in names:
+            got = analyze(name, case["rows"])                     # B after A, in this (long-lived) process
+            base = ref[name]
+            if ("error" in base) != ("error" in got):
+                return (f"{name}: after analysing another data set first: {got.get('error', 'a result')}, as the first analysis "
+                        f"of a fresh interpreter: {base.get('error', 'a result')}", "history-" + name)
+            if "error" in base:
+                continue
+            rtol = CF_RTOL if name in ("Elementary", "Probit") else ML_RTOL
+            for key in KEYS:
+                if not same(got[key], base[key], rtol):
+                    return (f"{name}: the result depends on what was analysed before: {key} = {got[key]!r} after a data set with "
+                            f"one mixed load level, {base[key]!r} as the first analysis of a fresh interpreter (relative deviation "
+                            f"{abs(got[key] - base[key]) / abs(base[key]) if base[key] else float('inf'):.3g})", "history-" + name)
+        return self._oracle_ml_start(dict(case, analyzer="MaxLikeFull"))
 
     def _oracle_ml_start(self, case):
         woe = _woe()
@@ -434,17 +590,23 @@ class C18(Prop):
 
     # -------------------------------------------------------------- shrinking
     def shrink(self, case, still_fails):
+        import time
         cur = dict(case)
         changed = True
-        while changed and len(cur["rows"]) > 2:
+        t_end = time.time() + (45 if case["kind"] in ("history", "ml") else 90)     # ML / history oracles cost seconds per call
+        while changed and len(cur["rows"]) > 2 and time.time() < t_end:
             changed = False
             for i in range(len(cur["rows"])):
+                if time.time() >= t_end:
+                    break
                 rows = cur["rows"][:i] + cur["rows"][i + 1:]
                 if not (exact_admissible(rows) if cur["kind"] == "exact" else admissible(rows)):
                     continue
-                if cur["kind"] == "ml" and not ml_admissible(rows):
+                if cur["kind"] in ("ml", "history") and not ml_admissible(rows):
                     continue
                 cand = dict(cur, rows=rows)
+                if cur.get("labels") is not None:
+                    cand["labels"] = cur["labels"][:i] + cur["labels"][i + 1:]
                 try:
                     if still_fails(cand):
                         cur, changed = cand, True
